@@ -595,9 +595,74 @@ var lookups = []lookupFn{
 
 var tagType = reflect.TypeOf(language.Tag{})
 
+// enumMethods: every exported method of every metric value type (the result
+// types of the Get* functions), callable with small integer arguments:
+// String, Value, IsValid, IsUnknown, IsDefined, IsChanged, ...  They are appended
+// to the lookup table so that histories and concurrent tasks exercise them too,
+// with in-range and out-of-range receiver values.
+type enumMethod struct {
+	name string
+	typ  reflect.Type
+	meth int
+}
+
+var enumMethods = func() []enumMethod {
+	var out []enumMethod
+	seen := map[reflect.Type]bool{}
+	for _, l := range lookups {
+		ft := reflect.TypeOf(l.fn)
+		if ft.NumIn() != 1 || ft.In(0).Kind() != reflect.String || ft.NumOut() < 1 {
+			continue
+		}
+		t := ft.Out(0)
+		if t.Kind() != reflect.Int || seen[t] {
+			continue
+		}
+		seen[t] = true
+		for m := 0; m < t.NumMethod(); m++ {
+			mt := t.Method(m).Type
+			ok := true
+			for a := 1; a < mt.NumIn(); a++ {
+				if mt.In(a).Kind() != reflect.Int {
+					ok = false
+				}
+			}
+			if ok {
+				out = append(out, enumMethod{name: t.String() + "." + t.Method(m).Name, typ: t, meth: m})
+			}
+		}
+	}
+	return out
+}()
+
+// nLookups is the size of the combined table (functions, then enum methods).
+func nLookups() int { return len(lookups) + len(enumMethods) }
+
+func doEnumMethod(e enumMethod, iarg int) string {
+	recv := reflect.ValueOf(iarg % 9).Convert(e.typ) // 0..8: in range and beyond
+	m := recv.Method(e.meth)
+	mt := m.Type()
+	args := make([]reflect.Value, mt.NumIn())
+	for a := range args {
+		args[a] = reflect.ValueOf((iarg/9 + a*3) % 7).Convert(mt.In(a))
+	}
+	var sb strings.Builder
+	sb.WriteString(e.name)
+	sb.WriteString(fmt.Sprintf("(%d)=", iarg%9))
+	for _, o := range m.Call(args) {
+		sb.WriteString(renderValue(o))
+		sb.WriteByte(',')
+	}
+	return sb.String()
+}
+
 // doLookup calls lookups[i] with arguments built from (sarg, iarg, lang index)
 // according to its signature and renders all results canonically.
 func doLookup(i int, sarg string, iarg int, li int) string {
+	i = i % nLookups()
+	if i >= len(lookups) {
+		return doEnumMethod(enumMethods[i-len(lookups)], iarg)
+	}
 	l := lookups[i%len(lookups)]
 	fv := reflect.ValueOf(l.fn)
 	ft := fv.Type()
